@@ -55,7 +55,7 @@ impl<R: Read, E: Endianness> BitBufReader<R, E> {
 
         buf.drain(..byte_pos);
         input.take((buf.capacity() - buf.len()) as u64).read_to_end(&mut buf)?;
-        if self.buf_len - byte_pos == buf.len() {
+        if buf.len() < buf.capacity() {
             self.input = None;
         }
         self.buf_len = buf.len();
